@@ -8,7 +8,7 @@ drivers, so every generated scenario is a valid program.
 import random
 
 SIGS = [-2, -5, -4, -7, 3, 11]          # interrupt / timer / resume signals (never 0 = SUCCESS)
-PROFILES = ["resource", "pool", "buffer", "oq", "pq", "cond", "lifecycle", "timers", "mixed", "crowd", "record"]
+PROFILES = ["resource", "pool", "buffer", "oq", "pq", "cond", "lifecycle", "timers", "mixed", "crowd", "record", "poolprio"]
 
 
 def gen_scenario(rng, profile=None, size=None, exclude=frozenset()):
@@ -119,6 +119,29 @@ def gen_scenario(rng, profile=None, size=None, exclude=frozenset()):
             ch += ["rstart %d %d" % (k, rng.randrange(n))] * 2 + ["rstop %d %d" % (k, rng.randrange(n))]
         return rng.choice(ch)
 
+    if profile == "poolprio":
+        # preempting pool acquisitions that have to wait, while priorities of waiters and holders change under them
+        cap = rng.choice([4, 6, 10])
+        out = ["pool %d" % cap]
+        np_ = rng.randint(3, 6)
+        for p in range(np_):
+            cmds = []
+            for _ in range(rng.randint(3, 8)):
+                r = rng.random()
+                if r < 0.3:
+                    cmds.append("%s 0 %d" % (rng.choice(["pacq", "ppre", "ppre"]), rng.randint(1, cap)))
+                elif r < 0.5:
+                    cmds.append("hold %d" % dur())
+                elif r < 0.75:
+                    cmds.append("prio %d %d" % (rng.randrange(np_), rng.randint(0, 9)))
+                elif r < 0.9:
+                    cmds.append("prel 0 %d" % rng.randint(1, cap))
+                else:
+                    cmds.append(rng.choice(["intr %d %d %d" % (rng.randrange(np_), rng.choice(SIGS), rng.randint(0, 9)),
+                                            "tadd 0 %d -5" % dur(), "stop %d 1" % rng.randrange(np_)]))
+            out.append("proc %d 1 %d" % (rng.randint(0, 9), len(cmds)))
+            out += cmds
+        return out, {"profile": profile, "procs": np_, "lines": len(out)}
     for p in range(np_):
         cmds = []
         if profile == "record" and p == 0:
